@@ -1,0 +1,7 @@
+//go:build !verif
+
+package s2
+
+// verifSched is a schedule point used only by the verification harness
+// (build tag verif); without the tag it is an empty, inlinable function.
+func verifSched(s *ShapeIndex, label string) {}
